@@ -294,12 +294,33 @@ func main() {
 
 	// Behaviour rules.
 	var rule pgen.Rule
+	matched := false
 	for _, r := range spec.Rules {
 		if (r.Stage == "" || r.Stage == stage) && (r.Phase == "" || r.Phase == phase) &&
 			(r.Job == "" || r.Job == job) && (r.Attempt == 0 || r.Attempt == attempt) &&
 			(r.JobPrefix == "" || strings.HasPrefix(job, r.JobPrefix)) {
-			rule = r
-			break
+			if !matched {
+				rule, matched = r, true
+				continue
+			}
+			// later matching rules only supply what the first one leaves
+			// open, so a fault / kill rule for one job does not switch off
+			// the program-wide shape rules (chunk count, resources, delays)
+			if rule.Chunks == 0 {
+				rule.Chunks = r.Chunks
+			}
+			if rule.Threads == 0 {
+				rule.Threads = r.Threads
+			}
+			if rule.MemGB == 0 {
+				rule.MemGB = r.MemGB
+			}
+			if rule.DelayBeforeMs == 0 {
+				rule.DelayBeforeMs = r.DelayBeforeMs
+			}
+			if rule.DelayAfterMs == 0 {
+				rule.DelayAfterMs = r.DelayAfterMs
+			}
 		}
 	}
 	drng := pgen.NewHashRng("delay", fmt.Sprint(spec.Seed), job, fmt.Sprint(attempt))
